@@ -368,9 +368,9 @@ Proof.
                 | b n p cp | b prefix delim cursor maxres | b | b dst bad srcs dm cp | b1 n1 b2 n2 | b | b | b cp];
     cbn [handle].
   - destruct (resolve_conds s cp); [|exact Hok]. destruct n; [exact Hok|]. apply finish_upload_ok. exact Hok.
-  - destruct (resolve_conds s cp); [|exact Hok]. apply finish_upload_ok. exact Hok.
+  - destruct (resolve_conds s cp); [|exact Hok]. destruct (um_name m); [exact Hok|]. apply finish_upload_ok. exact Hok.
   - destruct (resolve_conds s cp); exact Hok.
-  - destruct (resolve_conds s cp); [|exact Hok]. destruct bad; [exact Hok|].
+  - destruct (resolve_conds s cp); [|exact Hok]. destruct bad; [exact Hok|]. destruct (um_name m); [exact Hok|].
     cbn. split; [exact Hb|]. apply ainsert_sorted. exact Hu.
   - destruct (alookup id (s_uploads s)) as [u|]; [|exact Hok].
     destruct crange as [cr|]; [|exact Hok].
@@ -403,11 +403,12 @@ Proof.
     eapply buckets_ok_lookup; eauto.
   - destruct maxres as [ms|].
     + destruct (parse_int ms) as [z|]; [|exact Hok]. destruct (z <? 1); [exact Hok|].
-      destruct (get_bucket s b); [|exact Hok]. destruct (list_walk _ _ _ _ _) as [[f p] m]. exact Hok.
-    + destruct (get_bucket s b); [|exact Hok]. destruct (list_walk _ _ _ _ _) as [[f p] m]. exact Hok.
+      destruct (get_bucket s b); [|exact Hok]. destruct (list_walk _ _ _ _ _) as [[[f p] m] lst]. exact Hok.
+    + destruct (get_bucket s b); [|exact Hok]. destruct (list_walk _ _ _ _ _) as [[[f p] m] lst]. exact Hok.
   - exact Hok.
   - destruct (resolve_conds s cp); [|exact Hok]. destruct bad; [exact Hok|].
     destruct (split _ _) as [|d0 [|d1 [|d2 ds]]]; try exact Hok.
+    destruct d0 as [|d00 d0']; [exact Hok|]. set (d0 := d00 :: d0').
     destruct (_ >? _); [exact Hok|].
     destruct (fold_left _ srcs _) as [[code data]|]; [|exact Hok].
     destruct code; try exact Hok.
@@ -416,6 +417,7 @@ Proof.
   - destruct (contains _ _); [exact Hok|].
     destruct (split _ _) as [|f1 [|rest [|x xs]]]; try exact Hok.
     destruct (split2 _ _) as [|b2' [|f2 [|y ys]]]; try exact Hok.
+    destruct f2 as [|f20 f2']; [exact Hok|]. set (f2 := f20 :: f2').
     destruct (find_obj s b1 f1) as [o|]; [|exact Hok].
     destruct (find_obj _ b2' f2); cbn [fst]; apply store_add_ok; exact Hok.
   - cbn [fst]. split; [apply create_bucket_buckets_ok; exact Hb|]. rewrite create_bucket_uploads. exact Hu.
@@ -432,6 +434,230 @@ Proof.
   pose proof (state_ok_preserved s r Hok) as H1. destruct (handle s r) as [s1 rsp]. cbn [fst] in H1.
   specialize (IH s1 H1). destruct (run s1 rest) as [s2 rsps]. exact IH.
 Qed.
+
+(* ================================================================== *)
+(* 3b. No stored object has the empty name                              *)
+
+(* an upload without object name is refused (400 "missing object name") by all three upload
+   paths — media, multipart, resumable initiation — whatever the state; nothing changes *)
+Theorem empty_name_rejected s :
+  (forall b ct data cp, handle s (RUploadMedia b [] ct data cp) = (s, err 400))
+  /\ (forall b m data cp, um_name m = [] -> handle s (RUploadMultipart b m data cp) = (s, err 400))
+  /\ (forall b bad m cp, um_name m = [] -> handle s (RResumableInit b bad m cp) = (s, err 400)).
+Proof.
+  split; [|split].
+  - intros b ct data cp. cbn [handle]. destruct (resolve_conds s cp); reflexivity.
+  - intros b m data cp E. cbn [handle]. rewrite E. destruct (resolve_conds s cp); reflexivity.
+  - intros b bad m cp E. cbn [handle]. rewrite E. destruct (resolve_conds s cp); [|reflexivity].
+    destruct bad; reflexivity.
+Qed.
+
+Definition bk_named (bk : bucket) : Prop := forall n o, In (n, o) bk -> n <> [].
+
+(* every stored object, and every object a resumable session will store, has a non-empty name *)
+Definition names_ok (s : state) : Prop :=
+  (forall b bk, In (b, bk) (s_buckets s) -> bk_named bk)
+  /\ (forall id u, In (id, u) (s_uploads s) -> up_name u <> []).
+
+(* the destination name compose and copy parse out of the request path; both handlers refuse the
+   empty one (empty_destination_rejected), like the uploads refuse an empty object name *)
+Definition compose_dst (dst : str) : option str :=
+  match split (dst ++ s_compose) s_compose with
+  | [d; _] => Some d
+  | _ => None
+  end.
+
+Definition copy_dst (n1 b2 n2 : str) : option str :=
+  let object := n1 ++ s_rewrite_b ++ b2 ++ s_o ++ n2 in
+  if contains object s_compose then None else
+  match split object s_rewrite_b with
+  | [f1; rest] => match split2 rest s_o with
+                  | [b2'; f2] => Some f2
+                  | _ => None
+                  end
+  | _ => None
+  end.
+
+Lemma names_ok_init : names_ok init_state.
+Proof. split; intros ? ? []. Qed.
+
+Lemma bk_named_insert n o (bk : bucket) : n <> [] -> bk_named bk -> bk_named (ainsert n o bk).
+Proof.
+  intros Hn Hbk n' o' Hin. apply ainsert_in in Hin. destruct Hin as [E|Hin]; [injection E as -> _; exact Hn|eauto].
+Qed.
+
+Lemma bk_named_remove n (bk : bucket) : bk_named bk -> bk_named (aremove n bk).
+Proof. intros Hbk n' o' Hin. apply aremove_in in Hin. eauto. Qed.
+
+Lemma buckets_named_insert (bs : list (str * bucket)) b bk :
+  (forall b' bk', In (b', bk') bs -> bk_named bk') -> bk_named bk ->
+  forall b' bk', In (b', bk') (ainsert b bk bs) -> bk_named bk'.
+Proof.
+  intros H Hbk b' bk' Hin. apply ainsert_in in Hin. destruct Hin as [E|Hin]; [injection E as _ ->; exact Hbk|eauto].
+Qed.
+
+Lemma buckets_named_remove (bs : list (str * bucket)) b :
+  (forall b' bk', In (b', bk') bs -> bk_named bk') ->
+  forall b' bk', In (b', bk') (aremove b bs) -> bk_named bk'.
+Proof. intros H b' bk' Hin. apply aremove_in in Hin. eauto. Qed.
+
+Lemma names_ok_lookup s b bk : names_ok s -> get_bucket s b = Some bk -> bk_named bk.
+Proof. intros [H _] Hl. apply alookup_in in Hl. eauto. Qed.
+
+Lemma create_bucket_named s b : names_ok s -> names_ok (create_bucket s b).
+Proof.
+  intros [H1 H2]. unfold create_bucket. destruct (get_bucket s b); [split; assumption|].
+  split; [|exact H2]. cbn [set_buckets s_buckets]. apply buckets_named_insert; [exact H1|]. intros n o [].
+Qed.
+
+Lemma store_add_named s b n data ct md meta : n <> [] -> names_ok s -> names_ok (store_add s b n data ct md meta).
+Proof.
+  intros Hn Hok. pose proof (create_bucket_named s b Hok) as Hok1. destruct Hok1 as [H1 H2].
+  unfold store_add. split; cbn [s_buckets s_uploads]; [|exact H2].
+  apply buckets_named_insert; [exact H1|]. apply bk_named_insert; [exact Hn|].
+  destruct (get_bucket (create_bucket s b) b) as [bk|] eqn:E; [|intros n' o' []].
+  eapply names_ok_lookup; [split; eassumption|exact E].
+Qed.
+
+Lemma finish_upload_named s b n ct md meta data c :
+  n <> [] -> names_ok s -> names_ok (fst (finish_upload s b n ct md meta data c)).
+Proof.
+  intros Hn H. unfold finish_upload.
+  destruct md as [|p]; [|destruct p as [p|p|]; try destruct p; cbn; auto];
+    (destruct (validate_conds _ c); cbn [fst]; auto using store_add_named).
+Qed.
+
+(* the invariant is preserved by EVERY request *)
+Theorem names_ok_preserved s r : names_ok s -> names_ok (fst (handle s r)).
+Proof.
+  intros Hok. pose proof Hok as [Hb Hu].
+  destruct r as [b n ctype data cp | b m data cp | b cp | b bad m cp | id crange data | b n | b n | b n cp
+                | b n p cp | b prefix delim cursor maxres | b | b dst bad srcs dm cp | b1 n1 b2 n2 | b | b | b cp];
+    cbn [handle].
+  - destruct (resolve_conds s cp); [|exact Hok]. destruct n as [|n0 n']; [exact Hok|].
+    apply finish_upload_named; [discriminate|exact Hok].
+  - destruct (resolve_conds s cp); [|exact Hok]. destruct (um_name m) as [|n0 n'] eqn:En; [exact Hok|]. rewrite <- En.
+    apply finish_upload_named; [rewrite En; discriminate|exact Hok].
+  - destruct (resolve_conds s cp); exact Hok.
+  - destruct (resolve_conds s cp); [|exact Hok]. destruct bad; [exact Hok|].
+    destruct (um_name m) as [|n0 n'] eqn:En; [exact Hok|]. rewrite <- En.
+    cbn [fst]. split; [exact Hb|]. cbn [set_uploads s_uploads]. intros id u Hin. apply ainsert_in in Hin.
+    destruct Hin as [E|Hin]; [|eauto]. injection E as _ ->. cbn [up_name]. rewrite En. discriminate.
+  - destruct (alookup id (s_uploads s)) as [u|] eqn:Eu; [|exact Hok].
+    assert (Hun : up_name u <> []) by (apply alookup_in in Eu; eauto).
+    destruct crange as [cr|]; [|exact Hok].
+    destruct (parse_byte_range cr) as [br|]; [|exact Hok].
+    destruct (resume_apply (up_data u) br data) as [data'|]; [|exact Hok].
+    match goal with |- context [set_uploads s ?c ?ups] => set (s1 := set_uploads s c ups) end.
+    assert (Hok1 : names_ok s1).
+    { split; [exact Hb|]. subst s1. cbn [set_uploads s_uploads]. intros id' u' Hin. apply ainsert_in in Hin.
+      destruct Hin as [E|Hin]; [|eauto]. injection E as _ ->. exact Hun. }
+    destruct (resume_done br data'); [|exact Hok1].
+    match goal with
+    | |- context [finish_upload s1 ?b ?n ?ct ?md ?meta ?d ?c] =>
+        pose proof (finish_upload_named s1 b n ct md meta d c Hun Hok1) as HF;
+        destruct (finish_upload s1 b n ct md meta d c) as [s2 rsp]
+    end.
+    cbn [fst] in HF. destruct (Z.eqb (r_status rsp) 200); cbn [fst]; [|exact HF].
+    destruct HF as [HF1 HF2]. split; [exact HF1|]. cbn [set_uploads s_uploads]. intros id' u' Hin.
+    apply aremove_in in Hin. eauto.
+  - destruct (find_obj s b n); exact Hok.
+  - destruct (find_obj s b n); exact Hok.
+  - destruct (resolve_conds s cp); [|exact Hok].
+    destruct (validate_conds _ c); try exact Hok.
+    unfold store_delete_obj. destruct (get_bucket s b) as [bk|] eqn:E; [|exact Hok].
+    destruct (alookup n bk); [|exact Hok]. cbn [fst]. split; [|exact Hu]. cbn [set_buckets s_buckets].
+    apply buckets_named_insert; [exact Hb|]. apply bk_named_remove. eapply names_ok_lookup; eauto.
+  - destruct (resolve_conds s cp); [|exact Hok].
+    unfold find_obj. destruct (get_bucket s b) as [bk|] eqn:E; [|exact Hok].
+    destruct (alookup n bk) as [o|] eqn:Eo; [|exact Hok].
+    destruct (validate_conds _ c); try exact Hok.
+    destruct (pt_bad p); [exact Hok|]. cbn [fst].
+    unfold store_put_obj. rewrite E. split; [|exact Hu]. cbn [set_buckets s_buckets].
+    pose proof (names_ok_lookup s b bk Hok E) as Hbk.
+    apply buckets_named_insert; [exact Hb|]. apply bk_named_insert; [|exact Hbk].
+    apply alookup_in in Eo. eauto.
+  - destruct maxres as [ms|].
+    + destruct (parse_int ms) as [z|]; [|exact Hok]. destruct (z <? 1); [exact Hok|].
+      destruct (get_bucket s b); [|exact Hok]. destruct (list_walk _ _ _ _ _) as [[[f p] m] lst]. exact Hok.
+    + destruct (get_bucket s b); [|exact Hok]. destruct (list_walk _ _ _ _ _) as [[[f p] m] lst]. exact Hok.
+  - exact Hok.
+  - destruct (resolve_conds s cp); [|exact Hok]. destruct bad; [exact Hok|].
+    destruct (split _ _) as [|d0 [|d1 [|d2 ds]]]; try exact Hok.
+    destruct d0 as [|d00 d0']; [exact Hok|]. set (d0 := d00 :: d0').
+    assert (Hd : d0 <> []) by discriminate.
+    destruct (_ >? _); [exact Hok|].
+    destruct (fold_left _ srcs _) as [[code data]|]; [|exact Hok].
+    destruct code; try exact Hok.
+    destruct (validate_conds _ c); try exact Hok.
+    destruct dm as [m|]; cbn [fst]; apply store_add_named; assumption.
+  - destruct (contains _ _); [exact Hok|].
+    destruct (split _ _) as [|f1 [|rest [|x xs]]]; try exact Hok.
+    destruct (split2 _ _) as [|b2' [|f2 [|y ys]]]; try exact Hok.
+    destruct f2 as [|f20 f2']; [exact Hok|]. set (f2 := f20 :: f2').
+    assert (Hd : f2 <> []) by discriminate.
+    destruct (find_obj s b1 f1) as [o|]; [|exact Hok].
+    destruct (find_obj _ b2' f2); cbn [fst]; apply store_add_named; assumption.
+  - cbn [fst]. apply create_bucket_named. exact Hok.
+  - destruct (get_bucket s b); exact Hok.
+  - destruct (resolve_conds s cp); [|exact Hok].
+    destruct (validate_conds _ c); try exact Hok.
+    unfold store_delete_bucket. destruct (get_bucket s b); [|exact Hok].
+    cbn [fst]. split; [|exact Hu]. cbn [set_buckets s_buckets]. apply buckets_named_remove. exact Hb.
+Qed.
+
+Theorem names_ok_run rs : forall s, names_ok s -> names_ok (fst (run s rs)).
+Proof.
+  induction rs as [|r rest IH]; intros s Hok; cbn [run]; [exact Hok|].
+  pose proof (names_ok_preserved s r Hok) as H1. destruct (handle s r) as [s1 rsp]. cbn [fst] in H1.
+  specialize (IH s1 H1). destruct (run s1 rest) as [s2 rsps]. exact IH.
+Qed.
+
+Lemma bk_named_names (bk : bucket) : bk_named bk -> ~ In [] (map fst bk).
+Proof.
+  intros H Hin. apply in_map_iff in Hin. destruct Hin as [[n o] [E Hin]]. cbn in E. subst n.
+  exact (H [] o Hin eq_refl).
+Qed.
+
+(* no bucket of a reachable state holds an object with the empty name: every history, no guard *)
+Theorem reachable_names_nonempty rs b bk :
+  get_bucket (fst (run init_state rs)) b = Some bk -> ~ In [] (map fst bk).
+Proof.
+  intros H. apply bk_named_names. eapply names_ok_lookup; [|exact H].
+  apply names_ok_run. apply names_ok_init.
+Qed.
+
+(* compose and copy refuse a destination name that parses to "" (400 "missing destination object
+   name"), whatever the state, and change nothing *)
+Theorem empty_destination_rejected s :
+  (forall b dst bad srcs dm cp, compose_dst dst = Some [] ->
+     handle s (RCompose b dst bad srcs dm cp) = (s, err 400))
+  /\ (forall b1 n1 b2 n2, copy_dst n1 b2 n2 = Some [] ->
+     handle s (RCopy b1 n1 b2 n2) = (s, err 400)).
+Proof.
+  split.
+  - intros b dst bad srcs dm cp H. unfold compose_dst in H. cbn [handle].
+    destruct (resolve_conds s cp); [|reflexivity]. destruct bad; [reflexivity|].
+    destruct (split _ _) as [|d0 [|d1 [|d2 ds]]]; try discriminate. injection H as ->. reflexivity.
+  - intros b1 n1 b2 n2 H. unfold copy_dst in H. cbv zeta in H. cbn [handle].
+    destruct (contains _ _); [discriminate|].
+    destruct (split _ _) as [|f1 [|rest [|x xs]]]; try discriminate.
+    destruct (split2 _ _) as [|b2' [|f2 [|y ys]]]; try discriminate. injection H as ->. reflexivity.
+Qed.
+
+(* the requests that used to store an object named "" (compose with the destination path
+   "/compose", copy to the destination path ".../o/") are answered 400 now and store nothing *)
+Example empty_destination_rejected_example :
+  let cp := mkCP (PRaw []) (PRaw []) (PRaw []) (PRaw []) in
+  let bk := [98]%N in
+  let r1 := RCompose bk [] false [] None cp in
+  let rs2 := [RUploadMedia bk [97]%N [116]%N [1]%N cp; RCopy bk [97]%N bk []] in
+  compose_dst [] = Some [] /\ copy_dst [97]%N bk [] = Some []
+  /\ map r_status (snd (run init_state [r1])) = [400]
+  /\ get_bucket (fst (run init_state [r1])) bk = None
+  /\ map r_status (snd (run init_state rs2)) = [200; 400]
+  /\ option_map (map fst) (get_bucket (fst (run init_state rs2)) bk) = Some [[97]%N].
+Proof. cbn zeta. repeat split; timeout 60 vm_compute; reflexivity. Qed.
 
 (* ================================================================== *)
 (* 4. Upload, then read                                                 *)
@@ -493,6 +719,7 @@ Theorem multipart_upload_then_get s b m data cp :
        /\ v_meta v = merge_meta [] (um_meta m).
 Proof.
   cbn [handle]. destruct (resolve_conds s cp) as [c|]; [|cbn; discriminate].
+  destruct (um_name m) as [|n0 nm] eqn:En; [cbn; discriminate|]. rewrite <- En.
   intros H200. apply finish_upload_200 in H200. destruct H200 as [Hs _]. rewrite Hs. cbn zeta.
   pose proof (find_obj_store_add_same s b (um_name m) data (um_ctype m) true (merge_meta [] (um_meta m))) as Hf.
   destruct (get_of_find _ _ _ _ Hf) as [G1 G2]. split; [exact G1|].
@@ -505,6 +732,7 @@ Theorem bad_md5_keeps_previous s b m data cp :
   handle s (RUploadMultipart b m data cp) = (s, err 400).
 Proof.
   intros Hmd. cbn [handle]. destruct (resolve_conds s cp) as [c|]; [|reflexivity].
+  destruct (um_name m); [reflexivity|].
   unfold finish_upload. destruct Hmd as [-> | ->]; reflexivity.
 Qed.
 
@@ -607,9 +835,10 @@ Proof.
   - destruct (resolve_conds s cp); [|reflexivity]. destruct n; [reflexivity|].
     apply finish_upload_other. intros E. apply Hnt. left. symmetry. exact E.
   - destruct (resolve_conds s cp); [|reflexivity].
+    destruct (um_name m) as [|n0 nm] eqn:En; [reflexivity|]. rewrite <- En in *.
     apply finish_upload_other. intros E. apply Hnt. left. symmetry. exact E.
   - destruct (resolve_conds s cp); reflexivity.
-  - destruct (resolve_conds s cp); [|reflexivity]. destruct bad; reflexivity.
+  - destruct (resolve_conds s cp); [|reflexivity]. destruct bad; [reflexivity|]. destruct (um_name m); reflexivity.
   - destruct (alookup id (s_uploads s)) as [u|]; [|reflexivity].
     destruct crange as [cr|]; [|reflexivity].
     destruct (parse_byte_range cr) as [br|]; [|reflexivity].
@@ -635,11 +864,12 @@ Proof.
     apply find_obj_put_other. intros E'. apply Hnt. left. symmetry. exact E'.
   - destruct maxres as [ms|].
     + destruct (parse_int ms) as [z|]; [|reflexivity]. destruct (z <? 1); [reflexivity|].
-      destruct (get_bucket s b); [|reflexivity]. destruct (list_walk _ _ _ _ _) as [[f p] m]. reflexivity.
-    + destruct (get_bucket s b); [|reflexivity]. destruct (list_walk _ _ _ _ _) as [[f p] m]. reflexivity.
+      destruct (get_bucket s b); [|reflexivity]. destruct (list_walk _ _ _ _ _) as [[[f p] m] lst]. reflexivity.
+    + destruct (get_bucket s b); [|reflexivity]. destruct (list_walk _ _ _ _ _) as [[[f p] m] lst]. reflexivity.
   - reflexivity.
   - destruct (resolve_conds s cp); [|reflexivity]. destruct bad; [reflexivity|].
     destruct (split _ _) as [|d0 [|d1 [|d2 ds]]]; try reflexivity.
+    destruct d0 as [|d00 d0']; [reflexivity|]. set (d0 := d00 :: d0') in *.
     destruct (_ >? _); [reflexivity|].
     destruct (fold_left _ srcs _) as [[code data]|]; [|reflexivity].
     destruct code; try reflexivity.
@@ -649,6 +879,7 @@ Proof.
   - destruct (contains _ _); [reflexivity|].
     destruct (split _ _) as [|f1 [|rest [|x xs]]]; try reflexivity.
     destruct (split2 _ _) as [|b2' [|f2 [|y ys]]]; try reflexivity.
+    destruct f2 as [|f20 f2']; [reflexivity|]. set (f2 := f20 :: f2') in *.
     destruct (find_obj s b1 f1) as [o|]; [|reflexivity].
     assert (Hne : (b', n') <> (b2', f2)) by (intros E'; apply Hnt; left; symmetry; exact E').
     destruct (find_obj (store_add _ _ _ _ _ _ _) b2' f2); cbn [fst]; apply find_obj_store_add_other; exact Hne.
